@@ -245,12 +245,22 @@ def _sigma_case(case):
     flav = "nu" if pid > 0 else "nubar"
     prev = {}
     ladder = [10 ** (3 + k / 40.0) for k in range(0, 9 * 40 + 1)]
+    reused = {}
     for e in ladder:
         for kind in ("cc", "nc"):
             n += 1
             p, _ = _make(model, pid, e, kind, [0.5, 0.5, 0.5, 0.5, 0.5, 0.5])
             it = p.interaction
             sig, tot = float(it.cross_section), float(it.total_cross_section)
+            # one particle object scanned through the energies by assigning its public `energy` attribute: same answers
+            if kind not in reused:
+                reused[kind] = _make(model, pid, ladder[0], kind, [0.5, 0.5, 0.5, 0.5, 0.5, 0.5])[0]
+            reused[kind].energy = e
+            rs, rt_ = float(reused[kind].interaction.cross_section), float(reused[kind].interaction.total_cross_section)
+            if rs != sig or rt_ != tot:
+                fails.append({"check": "sigma-reused-particle", "what": "%s pid=%d %s: a particle whose energy was re-assigned to %g reports "
+                                                                        "sigma=%r / total %r, a new particle %r / %r" % (model, pid, kind, e, rs, rt_, sig, tot),
+                              "tags": {"model": model, "pid": pid, "group": "sigma-reused-particle"}})
             L, Lt = float(it.interaction_length), float(it.total_interaction_length)
             eps = math.log10(e)
             if model == "CTW":
